@@ -19,4 +19,20 @@ a, b = '<!-- parts-table-begin -->', '<!-- parts-table-end -->'
 if a in s:
     i, j = s.index(a) + len(a), s.index(b)
     s = s[:i] + '\n' + '\n'.join(rows) + '\n' + s[j:]
+
+# theorem index of section 6.18: every Theorem of every property file, grouped
+idx = ['| property file | property theorems about the model / specs | **about the code itself** (`Cxx_code_*`: generated function satisfies the spec) | ties (`generated_*`, `*_refines_model`: regenerated code = model) |', '|---|---|---|---|']
+for k in range(1, 18):
+    pid = 'C%02d' % k
+    src = open(os.path.join(V, 'coq', 'Properties', pid + '.v')).read()
+    names = re.findall(r'^(?:Theorem|Corollary)\s+([A-Za-z0-9_\']+)', src, re.M)
+    code = [n for n in names if re.match(r'C\d\d_code_', n)]
+    ties = [n for n in names if n not in code and (n.startswith('generated_') or 'refines_model' in n or n.endswith('_is_model') or 'code_' in n)]
+    rest = [n for n in names if n not in code and n not in ties]
+    f = lambda l: ', '.join('`%s`' % n for n in l) if l else '—'
+    idx.append('| %s.v | %s | %s | %s |' % (pid, f(rest), f(code), f(ties)))
+a, b = '<!-- theorem-index-begin -->', '<!-- theorem-index-end -->'
+if a in s:
+    i, j = s.index(a) + len(a), s.index(b)
+    s = s[:i] + '\n' + '\n'.join(idx) + '\n' + s[j:]
 open(p, 'w').write(s)
